@@ -41,7 +41,9 @@ RULE = ("case = (leaf observables, batch of samples [+ state], expression tree);
         "(malformed stream); scalars include 0 and negatives and stand on either side; in a quarter of the valid cases and in the "
         "'shared' stream textually identical sub-expressions are ONE Python object used several times (a = 2*X; a - a). mock tier: integer-valued mock "
         "leaves, integer-valued scalars, model run over Int, exact comparison; numpy scalars that are not float/int instances, numpy "
-        "arrays, tensors, lists, Fractions as operands in EITHER position (fixed + fault-injected); empty batches; the constructors "
+        "arrays, tensors, lists, Fractions as operands in EITHER position (fixed + fault-injected; rejected on the left since fix F16, applied in "
+        "/repo ac95f92); malformed expressions are judged as REJECTED-or-built only (a boolean; the exception class and which offending operand "
+        "is reported are counters); empty batches (apply compared, statistics of nothing unconstrained: counted); the constructors "
         "SumObservable / ProdObservable called directly on every pair of operand classes; real tier: SigmaX/Y/Z, "
         "NeighbourInteraction, SWAP on random Positive/Complex/Density states, model run over Float; the sample batch is float64, float32 or "
         "int64 (contiguous / strided / transposed) and handed to the composite and to its parts alike: parts then return float32 (SigmaZ, "
